@@ -263,7 +263,12 @@ def remove_nodes(source: str, nodes: Iterable[ast.AST], root: ast.Module) -> str
         str: Code after deleting nodes
     """
     keep_mask = [True] * len(source)
-    nodes = list(nodes)
+    # Nodes on lines with a `# pyrefact: ignore` comment are left alone
+    nodes = [
+        node
+        for node in nodes
+        if not core.has_ignore_comment(source, core.get_charnos(node, source))
+    ]
     for node in nodes:
         start, end = core.get_charnos(node, source)
 
@@ -547,6 +552,15 @@ def alter_code(
     Returns:
         str: _description_
     """
+    # The alterations often depend on each other, like a removal and an addition that together
+    # move code. If any of the code that would be removed or replaced is on a line with a
+    # `# pyrefact: ignore` comment, nothing is altered.
+    if any(
+        core.has_ignore_comment(source, core.get_charnos(node, source))
+        for node in (*removals, *replacements)
+    ):
+        return source
+
     # If priority specified, prioritize some actions over others. This goes on a line number
     # level, so col_offset will be overridden by this.
     original_source = source
